@@ -36,7 +36,7 @@ ASSUMPTIONS = [
 SHARDS = {"quick": 16, "thorough": 16}
 MIN_REACH = {
     "crops_named_by_a_relative_parent_dir": {"quick": 6, "thorough": 60},
-    "scripts_for_a_project_directory_with_pattern_characters": {"quick": 8, "thorough": 100},
+    "scripts_for_a_project_directory_with_pattern_characters": {"quick": 5, "thorough": 40},
     "scripts_generated": {"quick": 40, "thorough": 400},
     "script_executions": {"quick": 35, "thorough": 400},
     "programs_compiled": {"quick": 35, "thorough": 400},
